@@ -395,7 +395,7 @@ Theorem dav_meets_spec : forall t rs rt ct bd dh,
 Proof.
   intros t rs rt ct bd dh OK Ors NN.
   pose proof (status_dav t (req_path [] rs rt) ct bd dh) as ST.
-  unfold dav_spec, spec_answer, dav_model.
+  unfold dav_spec, spec_answer_gen, dav_model.
   apply andb_true_intro. split.
   { apply observe_strict. intros E. rewrite E in ST. exact ST. }
   clear ST. pose proof (decode_asked ct bd) as DA.
@@ -412,7 +412,7 @@ Proof.
               || match ob_responses (observe (dav_backend t (req_path [] rs rt) pf d)) with [] => true | _ => false end
     | Some l =>
       N.eqb (ob_status (observe (dav_backend t (req_path [] rs rt) pf d))) 207
-      && all2 (fun e r => list_eqb String.eqb (rid (r_href r)) (fst e) && accounted_b pf (snd e) r)
+      && all2 (fun e r => list_eqb String.eqb (rid (r_href r)) (fst e) && accounted_dav_b pf (snd e) r)
               l (ob_responses (observe (dav_backend t (req_path [] rs rt) pf d)))
     end = true).
   { intros d. pose proof (scope_dav t rs rt d OK Ors NN) as S. unfold dav_backend.
@@ -429,7 +429,7 @@ Proof.
       pose proof (accounting (hf pn) pf (file_props (snd pn))) as A. rewrite NR in A. destruct A as [HR _].
       apply andb_true_intro. split.
       + rewrite HR, (RH pn Hp). apply list_eqb_string_spec. reflexivity.
-      + eapply accounting_b. exact NR.
+      + unfold accounted_dav_b. rewrite (accounting_b _ _ _ _ NR). reflexivity.
     - destruct S as [-> G]. rewrite G. reflexivity.
     - contradiction. }
   destruct dh; cbn [parse_depth depth_asked bind is_infcase]; try reflexivity; apply B.
@@ -440,7 +440,7 @@ Theorem principal_meets_spec : forall cup homesets path ct bd dh,
 Proof.
   intros cup homesets path ct bd dh.
   pose proof (principal_ok cup homesets path ct bd dh) as PO.
-  unfold principal_spec, spec_answer, principal_model in *.
+  unfold principal_spec, spec_answer, spec_answer_gen, principal_model in *.
   apply andb_true_intro. split.
   { apply observe_strict. intros E. rewrite E in PO. exact PO. }
   pose proof (decode_asked ct bd) as DA.
@@ -462,3 +462,7 @@ Proof.
     - contradiction. }
   destruct dh; cbn [parse_depth depth_asked bind is_infcase]; try reflexivity; exact B.
 Qed.
+
+(** the file server's verdict only widens the exact accounting *)
+Lemma accounted_dav_of_exact pf p r : accounted_b pf p r = true -> accounted_dav_b pf p r = true.
+Proof. intros H. unfold accounted_dav_b. rewrite H. reflexivity. Qed.
